@@ -277,6 +277,13 @@ def write_evidence(pid, tier, seed, mod, items, results, known_status, violation
         "trusted_base": sorted(stubs) + list(getattr(mod, "TRUSTED", [])),
         "exhaustive": False,
     }
+    cs = [results[it.name].get("coop_stats") for it in items if results[it.name].get("coop_stats")]
+    if cs:
+        cov["states"] = sum(c["states"] for c in cs)
+        cov["transitions"] = sum(c["transitions"] for c in cs)
+        cov["traces_validated_against_impl"] = sum(c["real_replays_agree"] for c in cs)
+        cov["schedules_run"] = sum(c["runs"] for c in cs)
+        cov["real_thread_replays"] = sum(c["real_replays"] for c in cs)
     extra_cov = getattr(mod, "EXTRA_COVERAGE", None)
     if callable(extra_cov):
         try:
